@@ -34,6 +34,36 @@ type Engine struct {
 	srcCache  map[string][]byte
 	localKeys map[*ssa.Alloc]string
 	localOwner map[string]*ssa.Function
+	subIdx    map[string]int
+	readerCache map[*ssa.Function]bool
+	privCache map[ssa.Value]bool
+	allocCache map[*ssa.Function]bool
+}
+
+func (e *Engine) subIndex(key string) int {
+	if e.subIdx == nil {
+		e.subIdx = map[string]int{}
+	}
+	if i, ok := e.subIdx[key]; ok {
+		return i
+	}
+	// stable small index from the key text
+	h := 0
+	for _, c := range []byte(key) {
+		h = (h*131 + int(c)) % 1021
+	}
+	i := 1 + h
+	for used := true; used; {
+		used = false
+		for _, v := range e.subIdx {
+			if v == i {
+				i = 1 + (i % 1021)
+				used = true
+			}
+		}
+	}
+	e.subIdx[key] = i
+	return i
 }
 
 // ownsLocal: may code running in an activation of fn (or a closure nested in it) name this frame-local key?
@@ -80,6 +110,17 @@ func LoadEngine(repo string, patterns []string, specDir string) (*Engine, error)
 		fileAST: map[string]*ast.File{}, trusted: map[string]bool{}, srcCache: map[string][]byte{}}
 	for _, p := range prog.AllPackages() {
 		e.spkgs[p.Pkg.Path()] = p
+	}
+	isLocalStructAddr = func(v ssa.Value) bool {
+		switch a := v.(type) {
+		case *ssa.Alloc:
+			_, ok := e.localKey(a)
+			return ok && isStruct(a.Type().(*types.Pointer).Elem())
+		case *ssa.FieldAddr:
+			_, ft, ok := e.localFieldAddrKey(a)
+			return ok && isStruct(ft)
+		}
+		return false
 	}
 	cs, err := LoadAllContracts(repo, specDir, modulePath)
 	if err != nil {
@@ -377,7 +418,21 @@ func (e *Engine) keyOfAddr(addr ssa.Value) (map[string]Sort, bool) {
 	switch a := addr.(type) {
 	case *ssa.Alloc:
 		if k, ok := e.localKey(a); ok {
+			if isStruct(elem) {
+				e.localFieldKeys(k, elem, out, 0)
+				return out, false
+			}
 			out[k] = ArraySort(SInt, sortOf(elem))
+			return out, false
+		}
+	case *ssa.FieldAddr:
+		if k, ft, ok := e.localFieldAddrKey(a); ok {
+			if isStruct(ft) {
+				e.localFieldKeys(k, ft, out, 0)
+			} else if !isArray(ft) {
+				out[k] = ArraySort(SInt, sortOf(ft))
+				e.localOwner[k] = e.localOwner[rootLocalKey(e, k)]
+			}
 			return out, false
 		}
 	case *ssa.FreeVar:
@@ -386,9 +441,18 @@ func (e *Engine) keyOfAddr(addr ssa.Value) (map[string]Sort, bool) {
 			return out, false
 		}
 	}
-	addStruct := func(t types.Type) {
+	var addStruct func(t types.Type)
+	depth := 0
+	addStruct = func(t types.Type) {
+		depth++
+		defer func() { depth-- }()
+		if depth > 4 {
+			return
+		}
 		for _, f := range structFields(t) {
-			if !isStruct(f.Type()) && !isArray(f.Type()) {
+			if isStruct(f.Type()) {
+				addStruct(f.Type())
+			} else if !isArray(f.Type()) {
 				out[fieldKey(t, f.Name())] = ArraySort(SInt, sortOf(f.Type()))
 			}
 		}
@@ -442,6 +506,11 @@ func (e *Engine) instrMods(in ssa.Instruction, mi *modInfo) {
 	case *ssa.Store:
 		ks, _ := e.keyOfAddr(x.Addr)
 		_, isAlloc := x.Addr.(*ssa.Alloc)
+		if fa, ok := x.Addr.(*ssa.FieldAddr); ok {
+			if _, _, loc := e.localFieldAddrKey(fa); loc {
+				isAlloc = true
+			}
+		}
 		for k, s := range ks {
 			if isAlloc && strings.HasPrefix(k, "Local.") {
 				if mi.own == nil {
@@ -480,7 +549,7 @@ func (e *Engine) instrMods(in ssa.Instruction, mi *modInfo) {
 	case *ssa.UnOp:
 		if x.Op == token.MUL {
 			elem := x.X.Type().Underlying().(*types.Pointer).Elem()
-			if isStruct(elem) {
+			if isStruct(elem) && !structLoadIsReadOnly(x) {
 				ks, _ := e.keyOfAddr(x.X)
 				for k, s := range ks {
 					mi.keys[k] = s
@@ -518,11 +587,7 @@ func (e *Engine) instrMods(in ssa.Instruction, mi *modInfo) {
 				if stT, ok := c.Args[0].Type().Underlying().(*types.Slice); ok {
 					mi.keys[elemKey(sortOf(stT.Elem()))] = ArraySort(SInt, ArraySort(SInt, sortOf(stT.Elem())))
 					if isStruct(stT.Elem()) {
-						for _, f := range structFields(stT.Elem()) {
-							if !isStruct(f.Type()) && !isArray(f.Type()) {
-								mi.keys[fieldKey(stT.Elem(), f.Name())] = ArraySort(SInt, sortOf(f.Type()))
-							}
-						}
+						structFieldKeys(stT.Elem(), mi.keys, 0)
 					}
 				}
 			case "delete":
@@ -840,7 +905,7 @@ func (e *Engine) localKey(a *ssa.Alloc) (string, bool) {
 	}
 	e.localKeys[a] = ""
 	elem := a.Type().(*types.Pointer).Elem()
-	if isStruct(elem) || isArray(elem) || a.Referrers() == nil {
+	if isArray(elem) || a.Referrers() == nil {
 		return "", false
 	}
 	for _, r := range *a.Referrers() {
@@ -852,7 +917,11 @@ func (e *Engine) localKey(a *ssa.Alloc) (string, bool) {
 				return "", false
 			}
 		case *ssa.MakeClosure:
-			if !closureStaysLocal(x) {
+			if isStruct(elem) || !closureStaysLocal(x) {
+				return "", false
+			}
+		case *ssa.FieldAddr:
+			if !isStruct(elem) || !fieldAddrStaysLocal(x) {
 				return "", false
 			}
 		default:
@@ -906,4 +975,95 @@ func (e *Engine) freeVarLocalKey(fv *ssa.FreeVar) (string, bool) {
 		}
 	}
 	return "", false
+}
+
+
+// structFieldKeys collects the heap keys of all scalar fields of a struct type, including nested struct fields.
+func structFieldKeys(t types.Type, out map[string]Sort, depth int) {
+	if depth > 4 {
+		return
+	}
+	for _, f := range structFields(t) {
+		if isStruct(f.Type()) {
+			structFieldKeys(f.Type(), out, depth+1)
+		} else if !isArray(f.Type()) {
+			out[fieldKey(t, f.Name())] = ArraySort(SInt, sortOf(f.Type()))
+		}
+	}
+}
+
+
+// fieldAddrStaysLocal: the address of a field of a local struct variable is only used to load, store, or take
+// the address of a nested field — it is never stored, passed or captured.
+func fieldAddrStaysLocal(fa *ssa.FieldAddr) bool {
+	if fa.Referrers() == nil {
+		return false
+	}
+	for _, r := range *fa.Referrers() {
+		switch x := r.(type) {
+		case *ssa.DebugRef:
+		case *ssa.UnOp:
+			if x.Op != token.MUL {
+				return false
+			}
+		case *ssa.Store:
+			if x.Val == fa {
+				return false
+			}
+		case *ssa.FieldAddr:
+			if !fieldAddrStaysLocal(x) {
+				return false
+			}
+		default:
+			return false
+		}
+	}
+	return true
+}
+
+// localFieldKeys lists the per-field keys of a local struct variable (scalar leaves only).
+func (e *Engine) localFieldKeys(base string, t types.Type, out map[string]Sort, depth int) {
+	if depth > 4 {
+		return
+	}
+	for _, f := range structFields(t) {
+		k := base + "." + f.Name()
+		if isStruct(f.Type()) {
+			e.localFieldKeys(k, f.Type(), out, depth+1)
+		} else if !isArray(f.Type()) {
+			out[k] = ArraySort(SInt, sortOf(f.Type()))
+			e.localOwner[k] = e.localOwner[rootLocalKey(e, k)]
+		}
+	}
+}
+
+func rootLocalKey(e *Engine, k string) string {
+	for x := k; x != ""; {
+		if _, ok := e.localOwner[x]; ok {
+			return x
+		}
+		i := strings.LastIndex(x, ".")
+		if i < 0 {
+			break
+		}
+		x = x[:i]
+	}
+	return k
+}
+
+// localFieldAddrKey resolves &local.f.g... to its local key, if the root is a frame-local struct variable.
+func (e *Engine) localFieldAddrKey(fa *ssa.FieldAddr) (string, types.Type, bool) {
+	stT := fa.X.Type().Underlying().(*types.Pointer).Elem()
+	f := stT.Underlying().(*types.Struct).Field(fa.Field)
+	switch x := fa.X.(type) {
+	case *ssa.Alloc:
+		if base, ok := e.localKey(x); ok && isStruct(stT) {
+			return base + "." + f.Name(), f.Type(), true
+		}
+	case *ssa.FieldAddr:
+		if base, _, ok := e.localFieldAddrKey(x); ok {
+			return base + "." + f.Name(), f.Type(), true
+		}
+	}
+	return "", nil, false
 }
